@@ -60,6 +60,16 @@ CHECKS = {
             "(Inv_Prefix, Inv_Tail, Inv_Done, Inv_Prompt, Act_ExactlyOnce); each explored transition is executed on the real "
             "parse_space_packets both from the materialised pre-state and along real paths; random long histories of real PUS "
             "packets are validated by the Trace_SpParser trace specification.", "DESIGN.md 5/C13", ""),
+    "C14": (True, "model_checking",
+            "TLA+ spec of the CDS short time code with integer calendar arithmetic; TLC grid model checking + vector replay; "
+            "TLC trace validation of recorded calls",
+            "Cds.tla gives the 7-octet layout, the instant of a stamp as (Unix day, ms) pair, civil-from-days / days-from-civil "
+            "in integer arithmetic, from-datetime and timedelta addition with carry and overflow; TLC checks round-trip, "
+            "calendar-inverse, epoch, normalisation and monotonicity laws on boundary grids and every vector is executed on "
+            "CdsShortTimestamp (pack, three decode routes, Unix-seconds and datetime views, from_datetime, +); random stamps, "
+            "datetimes over 1958..2137 at microsecond resolution, additions around midnight / day 65535 and ordered pairs are "
+            "recorded and validated by TLC.", "DESIGN.md 5/C14",
+            "Unix seconds are a float: accepted within 1 microsecond of the exact value."),
     "C15": (True, "model_checking",
             "TLA+ codec spec of request ID / service-1 reports; TLC grid model checking + vector replay; TLC trace validation "
             "(request-ID halves exhaustive)",
@@ -82,5 +92,5 @@ CHECKS = {
             "than 2^W calls (W = 14, 8, 16 ...) with random restart points are validated by Trace_SeqCount.", "DESIGN.md 5/C19", ""),
 }
 NOT_YET = {}
-for _i in [4, 9, 10, 11, 14, 17, 18, 20]:
+for _i in [4, 9, 10, 11, 17, 18, 20]:
     NOT_YET[f"C{_i:02d}"] = "check not built yet in this revision of /verif (construction in progress, see DESIGN.md 11)"
